@@ -644,10 +644,10 @@ impl CmXmlParser {
             4095,
             ((trim[7].parse::<f32>().unwrap() * 2048.0) + 2048.0).round() as u16,
         );
-        let ms_weight = min(
-            4095,
-            ((trim[8].parse::<f32>().unwrap() * 2048.0) + 2048.0).round() as i16,
-        );
+        // Clamped to [0, 4095] like the other trims
+        let ms_weight = ((trim[8].parse::<f32>().unwrap() * 2048.0) + 2048.0)
+            .round()
+            .clamp(0.0, 4095.0) as i16;
 
         Ok(ExtMetadataBlockLevel2 {
             trim_slope,
